@@ -24,10 +24,10 @@ use super::{CompressionStrategy, Pages, ReadOnlyCompressedVec};
 /// 16 KiB balances these trade-offs for typical workloads.
 #[cfg(not(kani))]
 pub const MAX_UNCOMPRESSED_PAGE_SIZE: usize = 16 * 1024;
-/// Verification hook (Kani build only): 8-byte pages, so that page-boundary logic is reachable with
+/// Verification hook (Kani build only): 16-byte pages, so that page-boundary logic is reachable with
 /// a handful of values.
 #[cfg(kani)]
-pub const MAX_UNCOMPRESSED_PAGE_SIZE: usize = 8;
+pub const MAX_UNCOMPRESSED_PAGE_SIZE: usize = 16;
 
 const VERSION: Version = Version::new(3);
 
